@@ -1,7 +1,7 @@
 """Run every translator (each writes its coq/Gen file, or a failure stub)."""
 import importlib
 
-MODULES = ["gen_dialect", "gen_sites"]
+MODULES = ["gen_dialect", "gen_sites", "gen_codegen", "gen_split"]
 
 
 def generate_all():
